@@ -424,7 +424,11 @@ class Executor:
         """-> (store key or None, path within key, value). key None means the value lives in an immutable object."""
         key = (fr.fid, pl.local)
         if key not in st.store:
-            raise Inconclusive(f"read of unset local {pl.local} in {fr.fn.name} {fr.bb}")
+            lty = fr.fn.locals.get(pl.local, "")
+            if lty.startswith(("{closure@", "{closure#")) or lty == "()" or re.match(r"^fn\(", lty) or lty.startswith("{fn item"):
+                st.store[key] = Agg(lty, None, [])        # a zero-sized value (closure without captures, fn item) is never assigned in MIR
+            else:
+                raise Inconclusive(f"read of unset local {pl.local} in {fr.fn.name} {fr.bb}")
         val = st.store[key]
         path = ()
         variant = None
@@ -1117,6 +1121,8 @@ class Executor:
             res = h(self, st, callee, args, dty)
             if res is not NotImplemented:
                 break
+        if res is NotImplemented and self.inline_closure_calls:
+            res = self._closure_call(st, callee, args)
         if res is NotImplemented:
             from . import summaries
             res = summaries.builtin(self, st, callee, args, dty, fr)
@@ -1180,6 +1186,29 @@ class Executor:
             if st.aux[vk] > self.max_block_visits:
                 return Outcome("loopbound", None, st, info=(fr.fn.name, ret_bb))
         return None
+
+    inline_closure_calls = False
+
+    def _closure_call(self, st, callee, args):
+        """`<{closure@span} as Fn*<(A, B)>>::call*(closure, (a, b))` -> the closure's own MIR body with the argument tuple spread"""
+        m = re.match(r"^<&?(?:mut )?(\{closure@[^}]*\}) as Fn(?:Mut|Once)?<.*>>::call(?:_mut|_once)?$", callee)
+        if not m or len(args) != 2:
+            return NotImplemented
+        cands = [g for n_, l in self.funcs.items() if "{closure" in n_ for g in l if g.params and m.group(1) in g.params[0][1]]
+        if len(cands) != 1:
+            return NotImplemented
+        g = cands[0]
+        tup = args[1]
+        if isinstance(tup, (Ref, RefV)):
+            from .summaries import deref_val
+            tup = deref_val(self, st, tup)
+        if not isinstance(tup, Agg) or len(tup.fields) != len(g.params) - 1 or len(g.blocks) > 60:
+            return NotImplemented
+        env = args[0]
+        if not g.params[0][1].startswith("&") and isinstance(env, (Ref, RefV)):
+            from .summaries import deref_val
+            env = deref_val(self, st, env)
+        return ("inline", g, [env] + list(tup.fields))
 
     def havoc(self, st, callee, args, dty):
         from . import summaries
